@@ -554,3 +554,19 @@ _extend("C01",
     open=["strlex: JSON / TSConfigJSON modes of the lexer, SyntaxError message texts, invalid UTF-8 in the source, and the parser's handling of LegacyOctalLoc are not modelled"],
     scope="internal/js_lexer/js_lexer.go (NotJSON mode): the quote/backtick arm of (*Lexer).Next (loop, needsSlowPath, all five token kinds, 'Unterminated string literal' with position, fast-path copy), RescanCloseBraceAsTemplateToken, StringLiteral() (lazy decoding, SyntaxError position), CookedAndRawTemplateContents() (CR/CRLF->LF loop, cooked nil on failure), tryToDecodeEscapeSequences in full (every escape, 1-3 digit octal with the <256 rule, \\8 \\9, \\xHH, \\uHHHH, \\u{...} with int32 wrap and sticky isOutOfRange, line continuations LF/CR/CRLF/LS/PS, the failure returns incl. the three !reportErrors early returns that make the cooked value of a tagged template nil, LegacyOctalLoc, final UTF-16 encoding) — against ECMA-262 12.9.4 + 12.9.6 (Spec/JsStringLiteral.lean); composed with the printing model: lexing what printUnquotedUTF16 prints gives back the sequence",
     assumptions=["strlex: the source is well-formed UTF-8 (the model works on code points, the driver converts to byte offsets by UTF-8 width); LegacyOctalLoc.Start == 0 is read as 'not set'; Spec.JsStringLiteral is the package author's reading of ECMA-262, and Spec.JsString (used by the printing side) is proved to refine it (Lemmas/StrLexBridge)"])
+
+# tspaths (C11): tsconfig paths / baseUrl, the browser map, the resolution walk
+_extend("C11",
+    lean_modules=["EsbuildModel.Props.C11TsPaths", "EsbuildModel.Props.C11BrowserMap", "EsbuildModel.Props.C11ResolveWalk"],
+    theorems=_thms("C11TsPaths", "paths_match_is_longest_prefix paths_choice_is_unique_best paths_no_match_falls_through paths_total paths_order_independent "
+                   "finish_order_independent paths_hit_wins baseUrl_before_rest rest_only_after_tsconfig")
+             + ["EsbuildModel.TsPaths.parsePaths_valid"]
+             + _thms("C11BrowserMap", "browser_map_spec_file browser_map_spec_module browser_map_off browser_answer_is_an_entry browser_order_independent parsed_browser_map_is_a_map parsed_browser_map_lookup")
+             + _thms("C11ResolveWalk", "tsconfig_ignored_inside_node_modules paths_before_node_modules baseUrl_before_node_modules resolution_never_panics browser_false_disables_file browser_remaps_module_first index_remap_joined_to_wrong_directory"),
+    kernels=[("tspaths", 8000, 60000)],
+    open=["ResolveWalk: browser-map recursion (a map value that is a package path resolving back to the same key) overflows the Go stack: modelled as R.overflow with fuel, not excluded by any theorem, the generator avoids it (known finding c16-browser-map-self-reference-stack-overflow)",
+          "ResolveWalk: loadAsIndexWithBrowserRemapping / loadMainField join the replacement to the loaded directory instead of the browser scope's directory (theorem index_remap_joined_to_wrong_directory; known finding c11-browser-index-remap-joined-to-wrong-directory)",
+          "TsPaths: ties on prefix length go to the longest suffix (TypeScript: first in file order); a key whose array has no valid entry is absent from the map (TypeScript still treats the exact key as matched): documented differences",
+          "ResolveWalk: exports/imports interplay, PnP, NODE_PATH, externals, symlinks, package aliases, the CSS extension order, autoMain, jsconfig.json, package-style extends, Windows paths and log messages are not modelled; the ResolveWalk theorems are structural (precedence order), the full walk is tied differentially"],
+    scope="internal/resolver/resolver.go: matchTSConfigPaths, the no-baseUrl filter of parseTSConfigFromSource, tsConfigForDir, the tsconfig stage and node_modules walk of loadNodeModules (+ tryToResolvePackage), resolveWithoutSymlinks, resolveWithoutRemapping, loadAsFile / loadAsDirectory / loadAsMainField / loadAsIndex / loadAsIndexWithBrowserRemapping, IsPackagePath, the isNodeModules / hasNodeModules / enclosingBrowserScope / enclosingTSConfigJSON parts of dirInfoUncached; tsconfig_json.go: isValidTSConfigPathPattern, isValidTSConfigPathNoBaseURLPattern, getSubstitutedPathWithConfigDirTemplate, paths / baseUrl / extends of ParseTSConfigJSON, applyExtendedConfig; package_json.go: the browser part of parsePackageJSON, checkBrowserMap, esmParsePackageName — against Spec/TsPaths.lean (TypeScript handbook) and Spec/BrowserField.lean (package-browser-field-spec, rules F1-F6)",
+    assumptions=["tspaths: a Go map is an association list with pairwise distinct keys; `load` (loadAsFileOrDirectory) is a parameter of the paths theorems; Go's path.Join is shared by model and browser spec; the walk model covers worlds without exports/imports maps, PnP, NODE_PATH, externals, symlinks, aliases, CSS imports, with MainFields=[main] and lower-case file names; extends covers relative/absolute file paths only; the Go recursion is modelled with fuel 600 (OVERFLOW = Go stack overflow); the generator never produces browser-map cycles (they kill the Go process)"])
